@@ -132,3 +132,5 @@
 (declare-fun statustext (Int) BSeq)
 (declare-fun contains (BSeq BSeq) Bool)
 (assert (forall ((s BSeq)) (! (<= (len (trim s)) (len s)) :pattern ((trim s)))))
+; readings of absent JSON members are the zero values (definition of the reading functions)
+(assert (forall ((b BSeq) (k BSeq)) (! (=> (not (jhas b k)) (and (= (jnum b k) 0) (= (jstr b k) empty) (not (jbool b k)))) :pattern ((jnum b k)) :pattern ((jstr b k)) :pattern ((jbool b k)))))
